@@ -72,6 +72,14 @@ def run(c, a):
                   files={"SchemaGen.tla": schema}, name="walk-fail")
         if not r.ok or len(obligs) < 50:
             raise Broken("failure-path exploration failed (%d paths): %s" % (len(obligs), r.error_text[-600:]))
+        # all at once: every failure path of a root type in one message (several invalid places, several events / commands)
+        by_root = {}
+        for o in obligs:
+            if not o["deep"] and not o["wrap"] and o["seq"] == 0:
+                by_root.setdefault(o["type"], []).append(o["path"])
+        for t in sorted(by_root):
+            for seq in range(NSEQ):
+                obligs.append({"id": len(obligs) + 1, "kind": "all", "type": t, "path": [], "paths": by_root[t], "deep": False, "wrap": False, "seq": seq})
         m = re.search(r"NTypes == (\d+)\nNFields == (\d+)\nNUnconvertible == (\d+)", schema)
         extra.update({"legacy_types": int(m.group(1)), "legacy_fields": int(m.group(2)), "unconvertible_roots": int(m.group(3)),
                       "roots_with_failure_path": len({o["type"] for o in obligs}), "path_states": r.distinct})
@@ -154,7 +162,9 @@ def run(c, a):
     for g in OBS_RE.finditer(m.group(1)):
         rec = recs[int(g.group(1)) - 1]
         nv += 1
-        if rec["kind"] == "valid":
+        if rec["kind"] == "all":
+            sig = {"module": "Utf8", "clause": "unrepaired", "leafpath": "all-at-once/" + rec["type"].split(".")[-1]}
+        elif rec["kind"] == "valid":
             sig = {"module": "Utf8", "clause": "nottransparent", "type": rec["type"].split(".")[-1]}
         elif rec["kind"] == "path":
             sig = {"module": "Utf8", "clause": "unrepaired", "leafpath": "/".join(rec["path"][-3:])}
